@@ -1902,6 +1902,16 @@ class Dynamo0p3RedundantComputationTrans(LoopTrans):
         check_intergrid(node)
         const = LFRicConstants()
 
+        # A reduction must only include the owned part of a field so cannot
+        # be computed redundantly.
+        for call in node.kernels():
+            if call.is_reduction:
+                raise TransformationError(
+                    f"In the Dynamo0p3RedundantComputation transformation "
+                    f"apply method the loop contains kernel '{call.name}' "
+                    f"which performs a reduction, so redundant computation "
+                    f"is not supported")
+
         if not options:
             options = {}
         depth = options.get("depth")
